@@ -22,9 +22,18 @@ func l2Opts(sc *core.Scenario) l2.Opts {
 func l2Base(idx int, ctx *core.Ctx) *core.Scenario {
 	r := core.ItemRNG(ctx.Seed, "C14-l2", idx)
 	var sc *core.Scenario
-	switch r.Intn(7) {
+	c := cfg(ctx.Tier)
+	j := idx - (c.gen + c.corpus + c.probes + c.endless) // position among the L2 items
+	shape := r.Intn(7)
+	if j >= 0 && j < work.EndlessShapes {
+		shape = 0 // every endless shape is run at L2 in every tier, whatever the seed
+	}
+	switch shape {
 	case 0, 6:
 		prog, evs := work.Endless(r)
+		if j >= 0 && j < work.EndlessShapes {
+			prog, evs = work.EndlessK(j)
+		}
 		sc = &core.Scenario{Property: "C14", Seed: ctx.Seed, Index: idx, Kind: "l2:endless", Program: prog, Events: evs, RandSeed: 1, ReplayExact: true}
 	case 1:
 		files := work.Corpus(ctx.Corpus)
